@@ -20,7 +20,7 @@ def harnesses(tier):
             [O.c01_requirements]))
         hs.append(scenario_harness(
             "flat-critical-timeout-forever",
-            Profile(templates=("F3",), raises="free", crit_job="free", forever="free", timeout="free",
+            Profile(templates=("F3",), crit_job=False, forever="free", timeout="free",
                     perm="id", top="sched", verbose=True),
             [O.c01_requirements]))
         hs.append(scenario_harness(
